@@ -161,7 +161,26 @@ def run(chk):
                 found = True
                 chk.violation({'kind': 'counterexample', 'request': line, 'answer': ' '.join(a), 'vm_kind': 'fixed',
                                'meaning': 'a set_program call that failed changed the behaviour of the fixed-metadata VM'})
-        chk.cov['evaluations'] = len(lines) + 3
+        # the stack-usage table follows the program: a program whose result is the frame size of a function that exists only in it
+        # (main -> f1 -> f2, f2 returns f1's frame size) must see the calculator in force when it is loaded, whatever was loaded before
+        PC = B.callx(1) + B.EXIT + B.movr(6, 10) + B.callx(1) + B.EXIT + B.movr(0, 6) + B.alu('sub', 0, src=10) + B.EXIT
+        PD = B.mov(0, 0) + B.callx(1) + B.EXIT + B.movr(6, 10) + B.callx(1) + B.EXIT + B.movr(0, 6) + B.alu('sub', 0, src=10) + B.EXIT
+        su = []
+        for kd in kinds:
+            su.append(('api %s new:%s;calc:64;setp:%s;x' % (kd, P1.hex(), PC.hex()), ['ok:40']))
+            su.append(('api %s new:none;setp:%s;calc:64;setp:%s;x;setp:%s;x' % (kd, P1.hex(), PC.hex(), PD.hex()), ['ok:40', 'ok', 'ok:40']))
+            su.append(('api %s new:%s;x;calc:64;x;setp:%s;x;setp:%s;x;setp:%s;x' % (kd, PC.hex(), P1.hex(), PD.hex(), PC.hex()),
+                       ['ok:100', 'ok', 'ok:40', 'ok', 'ok:1', 'ok', 'ok:40', 'ok', 'ok:40']))
+            su.append(('api %s new:%s;setp:%s;x;setp:%s;x' % (kd, PD.hex(), PC.hex(), PD.hex()), ['ok:100', 'ok', 'ok:100']))
+        for (line, tail), a in zip(su, vlib.harness_run(binary, [l for l, _ in su])):
+            toks = a.split()
+            if toks[-len(tail):] != tail:
+                found = True
+                if len(chk.violations) < 12:
+                    chk.violation({'kind': 'counterexample', 'request': line, 'answer': a[:300], 'expected_tail': ' '.join(tail),
+                                   'meaning': 'the frame sizes used for a program depend on a program loaded earlier (the stack-usage table must be '
+                                              'recomputed for each loaded program with the calculator in force)'})
+        chk.cov['evaluations'] = len(lines) + 3 + len(su)
         chk.cov['distinct_nontrivial'] = len({l for l in lines})
         chk.cov['rule'] = ('all histories of length <= %d over' % (4 if thorough else 2) + ' a 17-operation alphabet from 4 initial programs (exhaustive), plus seeded random '
                            'histories of length 3..12 over the 4 VM kinds; verifier menu {default, accept-all, reject-all, ends-in-exit}, program menu '
